@@ -230,6 +230,27 @@ def Confined : (Nat → Prop) → Heap → List Write → Prop
   | A, h, .alloc c :: ws =>
     (∀ r, FVal.ref (some r) ∈ c.fields → A r) ∧ Confined (fun x => A x ∨ x = h.length) (h ++ [c]) ws
 
+/-- An interleaved history of two sides (`true` = left, owning region `A`; `false` = right, owning
+`B`): every write is confined to the region of the side that makes it. -/
+def Confined2 : (Nat → Prop) → (Nat → Prop) → Heap → List (Bool × Write) → Prop
+  | _, _, _, [] => True
+  | A, B, h, (true, .set a i v) :: ws =>
+    A a ∧ (∀ r, v = .ref (some r) → A r) ∧ Confined2 A B (Write.apply h (.set a i v)) ws
+  | A, B, h, (true, .alloc c) :: ws =>
+    (∀ r, FVal.ref (some r) ∈ c.fields → A r) ∧ Confined2 (fun x => A x ∨ x = h.length) B (h ++ [c]) ws
+  | A, B, h, (false, .set a i v) :: ws =>
+    B a ∧ (∀ r, v = .ref (some r) → B r) ∧ Confined2 A B (Write.apply h (.set a i v)) ws
+  | A, B, h, (false, .alloc c) :: ws =>
+    (∀ r, FVal.ref (some r) ∈ c.fields → B r) ∧ Confined2 A (fun x => B x ∨ x = h.length) (h ++ [c]) ws
+
+/-- What the left side would have done alone: the right side's overwrites are dropped and its
+allocations replaced by an empty placeholder cell (so that addresses stay comparable). -/
+def projLeft : List (Bool × Write) → List Write
+  | [] => []
+  | (true, w) :: ws => w :: projLeft ws
+  | (false, .set _ _ _) :: ws => projLeft ws
+  | (false, .alloc _) :: ws => .alloc ⟨none, []⟩ :: projLeft ws
+
 /-! ### Conditions on a table (all decidable; discharged by `decide` on the generated table) -/
 
 /-- No reference to a mutable cell is copied as is. -/
